@@ -567,6 +567,87 @@ class map_blocks_block_info_multi:
                 yield {"case": ("3d", drop, None), "xch": ((1, 1),) + ych, "ych": ych}
 
 
+@contract("dask_array/_map_blocks.py::map_blocks", spec="new-axis-multi-chunk", props=["C20", "C02"])
+class map_blocks_new_axis_multi:
+    """a new axis with MORE THAN ONE block (explicit chunks=), and map_blocks without array inputs (every output axis is
+    new): the function is invoked exactly once per advertised output block, each time with that block's chunk-location,
+    array-location, chunk-shape and block_id -- standalone and with an elementwise op below and/or above, which makes the
+    optimiser emit the layer through the fused Blockwise path"""
+    bounded_only = True
+    params = {"case": "const", "wrap": "const"}
+    scope = "x of 6 elements / 4x6 in 3 layouts, new_axis 0 / 1 / last with 2 or 3 blocks, no-input form; 4 placements"
+
+    def call(fn, case, wrap):
+        import numpy as np
+        import dask_array as da
+        kind, xch, new, newch = case
+        log = []
+        tag = repr((case, wrap))
+
+        def f(*blocks, block_info=None, block_id=None):
+            o = block_info[None]
+            log.append((tuple(block_id), tuple(o["chunk-location"]), [tuple(map(int, t)) for t in o["array-location"]],
+                        tuple(o["chunk-shape"]), tuple(o["num-chunks"]), tuple(o["shape"]), tag))
+            return np.full(o["chunk-shape"], float(sum(10 ** i * k for i, k in enumerate(block_id))), dtype="f8")
+
+        below = wrap in ("below", "both")
+        above = wrap in ("above", "both")
+        if kind == "noinput":
+            out = fn(f, chunks=newch, dtype="f8", meta=np.array((), dtype="f8"))
+        else:
+            a = np.arange(6.0) if kind == "1d" else np.arange(24.0).reshape(4, 6)
+            x = da.from_array(a, chunks=xch)
+            if below:
+                x = x * 1.0
+            ch = list(x.chunks)
+            ch.insert(new if new >= 0 else len(ch) + 1 + new, newch)
+            out = fn(f, x, new_axis=new if new >= 0 else x.ndim, chunks=tuple(ch), dtype="f8", meta=np.array((), dtype="f8"))
+        adv = out.chunks
+        y = out + 1 if above else out
+        log.clear()
+        res = y.compute(scheduler="sync")
+        return adv, list(log), res, 1.0 if above else 0.0
+
+    def requires(case, wrap):
+        return True
+
+    def ensures(result, case, wrap):
+        import numpy as np
+        from itertools import product
+        adv, log, res, off = result
+        cs = [np.concatenate([[0], np.cumsum(c)]).astype(int).tolist() for c in adv]
+        grid = tuple(len(c) for c in adv)
+        shape = tuple(sum(c) for c in adv)
+        want = sorted((loc, loc, [(cs[ax][k], cs[ax][k + 1]) for ax, k in enumerate(loc)],
+                       tuple(adv[ax][k] for ax, k in enumerate(loc)), grid, shape)
+                      for loc in product(*(range(n) for n in grid)))
+        got = sorted(t[:6] for t in log)
+        expected = np.zeros(shape)
+        for loc in product(*(range(n) for n in grid)):
+            expected[tuple(slice(cs[ax][k], cs[ax][k + 1]) for ax, k in enumerate(loc))] = float(sum(10 ** i * k for i, k in enumerate(loc)))
+        return {"one-invocation-per-advertised-block-with-its-own-location": got == want,
+                "values-come-from-the-right-block": res.shape == shape and bool(np.array_equal(res, expected + off))}
+
+    def domain(tier, rng):
+        wraps = ("none", "below", "above", "both")
+        cases = []
+        for xch in ((6,), (3, 3), (1, 2, 3)):
+            for new in (0, -1):
+                for newch in ((1, 1), (2, 1), (1, 1, 1)):
+                    cases.append(("1d", (xch,), new, newch))
+        for xch in (((4,), (6,)), ((2, 2), (3, 3)), ((1, 3), (2, 4))):
+            for new in (0, 1, -1):
+                for newch in ((1, 1), (1, 2)):
+                    cases.append(("2d", xch, new, newch))
+        for newch in (((2, 2),), ((1, 1), (3,)), ((2, 1), (1, 2)), ((1, 1, 1), (2, 2), (1,))):
+            cases.append(("noinput", None, None, newch))
+        for c in cases:
+            for w in wraps:
+                if c[0] == "noinput" and w in ("below", "both"):
+                    continue
+                yield {"case": c, "wrap": w}
+
+
 @contract("dask_array/_collection.py::Array.compute_chunk_sizes", spec="catalogue", props=["C28"])
 class compute_chunk_sizes_catalogue:
     """compute_chunk_sizes sets each chunk to the true size of that block; later operations compute NumPy's result"""
@@ -1864,6 +1945,88 @@ class constructors_touch_no_data:
                     yield {"op": op, "dtype": dt, "vdtype": vdt}
 
 
+@contract("dask_array/slicing/_utils.py::sanitize_index", spec="odd-index-objects", props=["C12"])
+class odd_index_objects:
+    """index objects NumPy accepts return NumPy's result (narrow integer dtypes with negative entries, 0-d integer arrays);
+    a boolean dask mask whose length differs from the axis is refused (IndexError) instead of being broadcast"""
+    bounded_only = True
+    params = {"kind": "const", "n": "const", "chunks": "const"}
+    scope = "1-D arrays of length 5 / 200; int8 / uint8 / int16 index arrays with negative entries, 0-d integer arrays, dask boolean masks of the right and of a wrong length"
+    raises = {"IndexError": lambda kind, n, chunks: kind.startswith("mask-wrong")}
+
+    def real():
+        return lambda x, idx: x[idx]
+
+    def call(fn, kind, n, chunks):
+        import numpy as np
+        import dask_array as da
+        d = np.arange(n) * 3
+        x = da.from_array(d, chunks=chunks)
+        if kind == "int8-negative":
+            idx = np.array([-1, 3], dtype=np.int8)
+        elif kind == "int16-negative":
+            idx = np.array([-2, 0, -n], dtype=np.int16)
+        elif kind == "uint8":
+            idx = np.array([4, 0], dtype=np.uint8)
+        elif kind == "0d-int":
+            idx = np.array(3)
+        elif kind == "0d-int8-negative":
+            idx = np.array(-2, dtype=np.int8)
+        elif kind == "mask-right-length":
+            m = (np.arange(n) % 2 == 0)
+            return np.asarray(fn(x, da.from_array(m, chunks=chunks)).compute()), d[m]
+        elif kind == "mask-wrong-length-1":
+            return np.asarray(fn(x, da.from_array(np.array([True]), chunks=1)).compute()), None
+        elif kind == "mask-wrong-length-short":
+            return np.asarray(fn(x, da.from_array(np.array([True, False, True]), chunks=3)).compute()), None
+        else:
+            raise ValueError(kind)
+        return np.asarray(fn(x, idx).compute()), d[idx]
+
+    def requires(kind, n, chunks):
+        return True
+
+    def ensures(result, kind, n, chunks):
+        got, want = result
+        if want is None:
+            return {"wrong-length-mask-refused": False}
+        return {"equals-numpy": _same(got, want)}
+
+    def domain(tier, rng):
+        for n, chs in ((5, [1, 2, 5]), (200, [50, 200])):
+            for ch in chs:
+                for kind in ("int8-negative", "int16-negative", "uint8", "0d-int", "0d-int8-negative", "mask-right-length",
+                             "mask-wrong-length-1", "mask-wrong-length-short"):
+                    yield {"kind": kind, "n": n, "chunks": ch}
+
+
+@contract("dask_array/_core_utils.py::_get_axis", spec="patterns", props=["C12"])
+class get_axis_patterns:
+    """position of the point-wise dimension inside a block indexed point-wise on some axes: NumPy puts it where the
+    indexed axes were when they are adjacent, and first when a sliced axis separates them"""
+    bounded_only = True
+    params = {"pattern": "const"}
+    scope = "every pattern of indexed / sliced axes up to rank 6 with at least one indexed axis"
+
+    def real():
+        from dask_array._core_utils import _get_axis
+        return lambda pattern: _get_axis([[0, 1] if p else None for p in pattern])
+
+    def requires(pattern):
+        return any(pattern)
+
+    def ensures(result, pattern):
+        idx = [i for i, p in enumerate(pattern) if p]
+        adjacent = idx[-1] - idx[0] + 1 == len(idx)
+        return {"numpy-placement-rule": result == (idx[0] if adjacent else 0)}
+
+    def domain(tier, rng):
+        import itertools
+        for n in range(1, 7):
+            for pat in itertools.product((False, True), repeat=n):
+                yield {"pattern": pat}
+
+
 @contract("dask_array/slicing/_vindex.py::_vindex", spec="points", props=["C12"])
 class vindex_points:
     """x.vindex[...] returns what NumPy point indexing returns; an index that is out of bounds raises (IndexError)
@@ -1917,6 +2080,13 @@ class vindex_points:
             yield {"shape": (7, 8), "chunks": ch, "idx": ([1, 5], slice(None))}
             yield {"shape": (7, 8), "chunks": ch, "idx": (slice(None), [0, 8])}
             yield {"shape": (7, 8), "chunks": ch, "idx": (slice(None), [0, 7])}
+        # rank 4: point axes separated by a sliced axis and not starting at axis 0 (NumPy then moves the point dimension
+        # to the front), with as many points as the leading axis is long, and with other counts
+        for npts in (3, 2):
+            yield {"shape": (3, 6, 4, 7), "chunks": ((3,), (3, 3), (2, 2), (4, 3)),
+                   "idx": (slice(None), list(range(npts)), slice(None), [6, 0, 3][:npts])}
+            yield {"shape": (3, 6, 4, 7), "chunks": ((3,), (3, 3), (2, 2), (4, 3)),
+                   "idx": (slice(None), slice(None), [1, 0, 3][:npts], [6, 0, 3][:npts])}
         # rank 3 with two point axes behind a slice axis, and blocks wider than 255 / 65535 elements: in-block point
         # offsets that do not fit a byte (or two) must survive whatever narrow integer type the layer picks
         for shape, ch in [((3, 4, 600), ((3,), (2, 2), (300, 300))), ((2, 3, 600), ((1, 1), (3,), (600,))),
